@@ -11,14 +11,14 @@ import (
 // frameMC runs the FrameImpl model (the code's reader against an adversarial
 // environment: every chunking, every cut, every fault point) on small chains.
 func frameMC(c *Ctx) {
-	confs := []string{"MC_Files1", "MC_Files2", "MC_Files3"}
+	confs := []string{"MC_Files1", "MC_Files2", "MC_Files3", "MC_Files4", "MC_Files5", "MC_Files6"}
 	bufs := []int{4}
 	if c.thorough() {
 		bufs = []int{1, 3, 4, 64}
 	}
 	for _, f := range confs {
 		for _, b := range bufs {
-			cfg := fmt.Sprintf("CONSTANTS\n FileSets <- %s\n BufSize = %d\n DataWithErr = TRUE\n PreFixChainRule = FALSE\nSPECIFICATION Spec\nINVARIANTS NeverPastFrame SuccessConsumesExactly TruncationIsError FaultIsError CleanEndIsOk PartialContent\nPROPERTY Terminates\nCHECK_DEADLOCK FALSE\n", f, b)
+			cfg := fmt.Sprintf("CONSTANTS\n FileSets <- %s\n BufSize = %d\n CopyBuf = %d\n DataWithErr = TRUE\n PreFixChainRule = FALSE\nSPECIFICATION Spec\nINVARIANTS NeverPastFrame SuccessConsumesExactly TruncationIsError FaultIsError CleanEndIsOk PartialContent\nPROPERTY Terminates\nCHECK_DEADLOCK FALSE\n", f, b, b)
 			r := c.runTLC(TLCRun{Module: "MC_FrameImpl", Cfg: cfg, Workers: 4, HeapGB: 4})
 			if r.Exit != 0 {
 				if strings.Contains(r.Out, "is violated") {
@@ -32,7 +32,7 @@ func frameMC(c *Ctx) {
 		}
 	}
 	// non-vacuity: the model with the pre-fix chain rule must violate FaultIsError
-	cfg := "CONSTANTS\n FileSets <- MC_Files2\n BufSize = 4\n DataWithErr = TRUE\n PreFixChainRule = TRUE\nSPECIFICATION Spec\nINVARIANTS FaultIsError\nCHECK_DEADLOCK FALSE\n"
+	cfg := "CONSTANTS\n FileSets <- MC_Files2\n BufSize = 4\n CopyBuf = 4\n DataWithErr = TRUE\n PreFixChainRule = TRUE\nSPECIFICATION Spec\nINVARIANTS FaultIsError\nCHECK_DEADLOCK FALSE\n"
 	r := c.runTLC(TLCRun{Module: "MC_FrameImpl", Cfg: cfg, Workers: 1, HeapGB: 2})
 	c.Cov["model_detects_prefix_chain_rule"] = strings.Contains(r.Out, "Invariant FaultIsError is violated")
 	if !strings.Contains(r.Out, "Invariant FaultIsError is violated") {
